@@ -23,6 +23,7 @@ import (
 	"sync"
 	"sync/atomic"
 	"testing"
+	"time"
 	"unicode"
 
 	"github.com/bokysan/socketace/v2/internal/client/listener"
@@ -33,6 +34,7 @@ import (
 	"github.com/bokysan/socketace/v2/internal/util/addr"
 	"github.com/bokysan/socketace/v2/internal/util/buffers"
 	"github.com/bokysan/socketace/v2/internal/util/cert"
+	"github.com/bokysan/socketace/v2/internal/verifhook"
 	"github.com/bokysan/socketace/v2/internal/zzverif/e2e"
 	"github.com/bokysan/socketace/v2/internal/zzverif/vcommon"
 	ms "github.com/multiformats/go-multistream"
@@ -65,7 +67,9 @@ type cfgSpec struct {
 	Table  []string   `json:"table"`
 	Allows [][]string `json:"allows"`
 	Bad    bool       `json:"bad_allow_list,omitempty"` // some allow-list names a channel that is not configured
-	Space  string     `json:"space,omitempty"`          // "exhaustive" / "sampled" / "bad-allow-list"
+	Space  string     `json:"space,omitempty"`          // "exhaustive" / "sampled" / "bad-allow-list" / "concurrent"
+	Rounds int        `json:"rounds,omitempty"`         // concurrent family: bursts per endpoint and path (0 = sequential family)
+	Par    int        `json:"par,omitempty"`            // concurrent family: simultaneous requests per burst
 }
 
 // reqCase is one replayable request.
@@ -77,6 +81,8 @@ type reqCase struct {
 	Script []string `json:"script,omitempty"` // via raw: the tokens sent on ONE stream
 	Pos    int      `json:"pos,omitempty"`    // via raw: which token the verdict is about
 	Path   string   `json:"path,omitempty"`   // via path
+	Burst  []string `json:"burst,omitempty"`  // via burst-client / burst-raw: the names requested simultaneously on ONE session
+	Slot   int      `json:"slot,omitempty"`   // which request of the burst the verdict is about
 }
 
 // ---- reference model -----------------------------------------------------------------------
@@ -920,6 +926,10 @@ func shuffled(rng interface{ Intn(int) int }, l []string) []string {
 }
 
 func runConfig(rec *vcommon.Rec, cfg cfgSpec, idx int) {
+	if cfg.Rounds > 0 {
+		runConcurrent(rec, cfg, idx, nil, "")
+		return
+	}
 	rec.Mark(map[string]interface{}{"cfg": cfg, "phase": "startup"})
 	rng := vcommon.NewRand(rec.Seed(), fmt.Sprintf("c03/cfg/%d/%s/%q/%q", idx, cfg.Kind, cfg.Table, cfg.Allows))
 	r, startErr, fatal := startRig(rec, cfg)
@@ -999,6 +1009,359 @@ func runConfig(rec *vcommon.Rec, cfg cfgSpec, idx int) {
 		r.pathVariants(idx)
 	}
 	// end of configuration: nothing may have arrived at a target behind our back
+	ob := &obs{Banner: -1}
+	if r.collect(ob) == e2e.Done {
+		total := 0
+		for _, h := range ob.Hits {
+			total += h
+		}
+		ob.closeHits()
+		if total > 0 {
+			rec.Violation(cfg.Kind+":late:outbound-connection-on-refusal", reqCase{Cfg: cfg, Via: "end-of-configuration"},
+				map[string]interface{}{"connections_nobody_asked_for": ob.Hits})
+		} else {
+			rec.Stat("end_of_configuration_barriers_clean", 1)
+		}
+	}
+}
+
+// ---- concurrent family -------------------------------------------------------------------------
+//
+// Several logical connections for DIFFERENT names are requested at the same moment on ONE session.
+// The oracle is the same model, applied per request; while a burst is in flight nothing global is
+// counted: a request is identified by the banner it receives and by eight bytes it pushes, which
+// must come out of a socket accepted by the target configured for ITS name. The accept-queue barrier
+// runs after every request of the burst has its outcome.
+
+type burstReq struct {
+	name  string
+	exp   int
+	class string
+	ob    obs
+	nonce [8]byte
+	conn  io.ReadWriteCloser
+	at    int // target whose accepted socket delivered the nonce (-1 none, -2 more than one)
+}
+
+func (r *rig) burstOne(ep *endpoint, via string, q *burstReq) {
+	q.ob.Banner, q.at = -1, -1
+	binary.BigEndian.PutUint64(q.nonce[:], 0xC03B000000000000+atomic.AddUint64(&nonceSeq, 1))
+	switch via {
+	case "burst-client":
+		app, err := net.Dial("unix", ep.lsn[q.name])
+		if err != nil {
+			q.ob.Outcome, q.ob.Note = "busy", "dial of the listener failed: "+err.Error()
+			return
+		}
+		q.conn = app
+		readOutcome(app, &q.ob)
+	case "burst-raw":
+		st, err := ep.rawSess.OpenStream()
+		if err != nil {
+			q.ob.Outcome, q.ob.Note = "busy", "raw client could not open a stream: "+err.Error()
+			return
+		}
+		q.conn = st
+		tok := "/" + q.name
+		if err := writeTok(st, ms.ProtocolID); err == nil {
+			err = writeTok(st, tok)
+		}
+		hdr, err, o := readTokStall(st)
+		var resp string
+		if o == e2e.Done && err == nil && hdr == ms.ProtocolID {
+			resp, err, o = readTokStall(st)
+		} else if o == e2e.Done && err == nil {
+			q.ob.Outcome, q.ob.Got = "payload", fmt.Sprintf("unexpected header %q", hdr)
+			return
+		}
+		switch {
+		case o == e2e.Stalled:
+			q.ob.Outcome = "stalled"
+		case o == e2e.Inconclusive:
+			q.ob.Outcome = "busy"
+		case err != nil:
+			q.ob.Outcome, q.ob.Err = "refused", err.Error()
+		case resp == "na":
+			q.ob.Outcome = "refused"
+		case resp == tok:
+			readOutcome(st, &q.ob)
+			if q.ob.Outcome == "refused" {
+				q.ob.Note = "protocol was echoed (selected), then end-of-stream"
+				if q.exp < 0 {
+					q.ob.Outcome = "connected"
+				}
+			}
+		default:
+			q.ob.Outcome, q.ob.Got = "payload", fmt.Sprintf("unexpected answer %q", resp)
+		}
+	}
+	if q.ob.Outcome == "connected" && q.ob.Banner >= 0 {
+		if _, err := q.conn.Write(q.nonce[:]); err != nil {
+			q.ob.Data = "write failed: " + err.Error()
+		}
+	}
+}
+
+// burst runs one burst and judges every request of it. Returns (stalled, violations).
+func (r *rig) burst(ep *endpoint, via string, names []string, round int) (bool, int) {
+	rec := r.rec
+	desc := reqCase{Cfg: r.cfg, Ep: ep.idx, Via: via, Burst: names}
+	rec.Mark(desc)
+	reqs := make([]*burstReq, len(names))
+	start := make(chan struct{})
+	var wg sync.WaitGroup
+	for i, n := range names {
+		q := &burstReq{name: n, exp: expected(r.cfg.Table, ep.allow, n), class: classify(r.cfg.Table, ep.allow, n)}
+		reqs[i] = q
+		wg.Add(1)
+		go func() {
+			defer wg.Done()
+			<-start
+			r.burstOne(ep, via, q)
+		}()
+	}
+	close(start)
+	wg.Wait() // every request waits under the stall rule, so this returns
+	defer func() {
+		for _, q := range reqs {
+			if q.conn != nil {
+				q.conn.Close()
+			}
+		}
+	}()
+	// the burst is over: now the global barrier, then who got which bytes
+	all := &obs{Banner: -1}
+	if o := r.collect(all); o != e2e.Done {
+		rec.Inconclusive("barrier after a burst did not complete: "+all.Note, desc)
+		return o == e2e.Stalled, 0
+	}
+	defer all.closeHits()
+	type got struct {
+		target int
+		n      int
+		b      [8]byte
+	}
+	nHits := 0
+	res := make(chan got, 64)
+	for ti, l := range all.hitConn {
+		for _, c := range l {
+			nHits++
+			ti, c := ti, c
+			go func() {
+				g := got{target: ti}
+				g.n, _ = io.ReadFull(c, g.b[:])
+				e2e.Bump(g.n + 1)
+				res <- g
+			}()
+		}
+	}
+	want := map[[8]byte]*burstReq{}
+	for _, q := range reqs {
+		if q.ob.Outcome == "connected" && q.ob.Banner >= 0 && q.ob.Data == "" {
+			want[q.nonce] = q
+		}
+	}
+	pendingNonces, received, orphans := len(want), 0, 0
+	take := func(g got) {
+		received++
+		if q := want[g.b]; g.n == 8 && q != nil {
+			if q.at == -1 {
+				q.at = g.target
+				pendingNonces--
+			} else {
+				q.at = -2
+			}
+		} else {
+			orphans++
+		}
+	}
+	dataStalled := false
+	for pendingNonces > 0 && received < nHits {
+		var g got
+		done := e2e.Go(func() { g = <-res })
+		if o := e2e.Wait(done); o != e2e.Done {
+			dataStalled = true
+			break
+		}
+		take(g)
+	}
+	// release everything that is still waiting for bytes that will never come: the requesters go away
+	for _, q := range reqs {
+		if q.conn != nil {
+			q.conn.Close()
+		}
+	}
+	for received < nHits && !dataStalled {
+		var g got
+		done := e2e.Go(func() { g = <-res })
+		if o := e2e.Wait(done); o != e2e.Done {
+			dataStalled = true
+			break
+		}
+		take(g)
+	}
+	viols := 0
+	stalled := false
+	kind := r.cfg.Kind
+	suffix := ":concurrent-requests"
+	if via == "burst-raw" {
+		suffix += ":raw"
+	}
+	for slot, q := range reqs {
+		rc := desc
+		rc.Slot, rc.Name = slot, q.name
+		key := fmt.Sprintf("%s|%q|%q|%d|%s|%d|%d|%q", kind, r.cfg.Table, r.cfg.Allows, ep.idx, via, round, slot, names)
+		if q.ob.Outcome == "busy" {
+			rec.Case(key, false)
+			rec.Inconclusive("busy at the stall watchdog / fixture trouble: "+q.ob.Note, rc)
+			continue
+		}
+		rec.Case(key, true)
+		rec.Stat("concurrent:requests:"+kind+":"+via, 1)
+		expS := "refused"
+		if q.exp >= 0 {
+			expS = "target"
+		}
+		rec.Seen("tuple(kind,via,name-class,expected)", kind+"|"+via+"|"+q.class+"|"+expS)
+		viol := func(what string) {
+			viols++
+			rec.Violation(kind+":"+q.class+":"+what+suffix, rc, map[string]interface{}{"expected_target": q.exp, "observed": q.ob,
+				"pushed_bytes_came_out_at_target": q.at, "table": r.cfg.Table, "allow": ep.allow, "burst": names})
+		}
+		switch {
+		case q.ob.Outcome == "stalled":
+			viol("no-outcome-stalled")
+			stalled = true
+		case q.exp < 0 && q.ob.Outcome == "connected":
+			viol("connected-although-refused")
+		case q.exp < 0 && q.ob.Outcome == "payload":
+			viol("payload-on-refusal")
+		case q.exp < 0:
+			rec.Stat("concurrent:refusals_verified(no payload)", 1)
+		case q.ob.Outcome == "refused":
+			viol("refused-although-allowed")
+		case q.ob.Outcome == "payload":
+			viol("garbage-instead-of-target")
+		case q.ob.Banner != q.exp:
+			viol("wrong-target")
+		case q.at >= 0 && q.at != q.exp || q.at == -2:
+			viol("wrong-target")
+		case q.at == -1:
+			viol("app-data-not-at-target")
+		default:
+			rec.Stat("concurrent:routings_verified(banner and pushed bytes at the target of the request's own name)", 1)
+		}
+	}
+	if orphans > 0 && !dataStalled {
+		// a connection to a target that carries no requester's bytes: nobody asked for it
+		viols++
+		rec.Violation(kind+":burst:outbound-connection-nobody-asked-for"+suffix, desc,
+			map[string]interface{}{"connections_per_target": all.Hits, "without_a_requester": orphans, "burst": names})
+	} else if !dataStalled {
+		rec.Stat("concurrent:bursts_with_clean_barrier(every accepted socket belongs to a request)", 1)
+	}
+	return stalled, viols
+}
+
+// burstNames: simultaneous requests for DIFFERENT allowed names (every allowed name at least once when
+// there is room), some bursts mixed with refused names.
+func burstNames(rng interface{ Intn(int) int }, allowed, refused []string, par int, mixed bool) []string {
+	out := make([]string, 0, par)
+	al := shuffled(rng, allowed)
+	for i := 0; len(out) < par; i++ {
+		out = append(out, al[i%len(al)])
+	}
+	if mixed && len(refused) > 0 {
+		for k := 0; k < 1+par/4; k++ {
+			out[rng.Intn(len(out))] = refused[rng.Intn(len(refused))]
+		}
+	}
+	return shuffled(rng, out)
+}
+
+// runConcurrent runs the concurrent family on one configuration. only/onlyVia: replay of one burst.
+func runConcurrent(rec *vcommon.Rec, cfg cfgSpec, idx int, only []string, onlyVia string) {
+	rec.Mark(map[string]interface{}{"cfg": cfg, "phase": "startup"})
+	rng := vcommon.NewRand(rec.Seed(), fmt.Sprintf("c03/burst/%d/%s/%q/%q", idx, cfg.Kind, cfg.Table, cfg.Allows))
+	r, startErr, fatal := startRig(rec, cfg)
+	if fatal != nil {
+		rec.Inconclusive("fixture could not start: "+fatal.Error(), cfg)
+		return
+	}
+	defer r.close()
+	if startErr != nil {
+		rec.Violation(cfg.Kind+":setup:server-did-not-start", reqCase{Cfg: cfg}, startErr.Error())
+		return
+	}
+	// Line the streams of a burst up: the server's accept loop holds the first stream that arrives after
+	// a pause for a (seeded) fraction of a millisecond, the others queue up behind it and are then handed
+	// to their goroutines back to back. Delay only; a no-op for the outcome on correct code.
+	defer runtime.GOMAXPROCS(runtime.GOMAXPROCS(8))
+	var lastAccept int64
+	var hookMu sync.Mutex
+	hrng := vcommon.NewRand(rec.Seed(), fmt.Sprintf("c03/hook/%d", idx))
+	verifhook.Set("server.stream.accepted", func() {
+		now := time.Now().UnixNano()
+		if prev := atomic.SwapInt64(&lastAccept, now); now-prev > int64(300*time.Microsecond) {
+			hookMu.Lock()
+			d := time.Duration(200+hrng.Intn(600)) * time.Microsecond
+			hookMu.Unlock()
+			time.Sleep(d)
+			atomic.StoreInt64(&lastAccept, time.Now().UnixNano())
+		}
+	})
+	defer verifhook.Set("server.stream.accepted", nil)
+	rec.Stat("configurations:concurrent:"+cfg.Kind, 1)
+	rec.Seen("space", cfg.Space+"/"+cfg.Kind)
+	names := requestNames(cfg.Table)
+	if err := r.startClients(names); err != nil {
+		rec.Inconclusive("client command could not start: "+err.Error(), cfg)
+		return
+	}
+	for _, ep := range r.eps {
+		var allowed, refused []string
+		for _, n := range names {
+			if expected(cfg.Table, ep.allow, n) >= 0 {
+				allowed = append(allowed, n)
+			} else {
+				refused = append(refused, n)
+			}
+		}
+		if len(allowed) < 2 {
+			continue
+		}
+		for _, via := range []string{"burst-client", "burst-raw"} {
+			if onlyVia != "" && via != onlyVia {
+				continue
+			}
+			// the session exists before the first burst (one sequential request each)
+			if via == "burst-client" {
+				if r.clientRequest(ep, allowed[0]) {
+					return
+				}
+			} else if err := r.rawSession(ep); err != nil {
+				rec.Inconclusive("raw client could not establish its session: "+err.Error(), cfg)
+				continue
+			}
+			viols := 0
+			for round := 0; round < cfg.Rounds; round++ {
+				bn := only
+				if bn == nil {
+					bn = burstNames(rng, allowed, refused, cfg.Par, round%3 == 2)
+				}
+				stalled, v := r.burst(ep, via, bn, round)
+				viols += v
+				rec.Stat("concurrent:bursts:"+cfg.Kind+":"+via, 1)
+				if stalled {
+					rec.Note("concurrent family abandoned on this configuration after a stall", cfg)
+					return
+				}
+				if viols >= 12 {
+					break // enough witnesses from this session
+				}
+			}
+		}
+	}
 	ob := &obs{Banner: -1}
 	if r.collect(ob) == e2e.Done {
 		total := 0
@@ -1224,6 +1587,27 @@ func workload(rec *vcommon.Rec) []cfgSpec {
 		}
 		items = append(items, cfgSpec{Kind: "dns", Table: tb, Allows: [][]string{al}, Space: "sampled"})
 	}
+	// concurrent family: two or more exposed channels, bursts of simultaneous requests on one session
+	conc := func(kind string, n, rounds, par int) {
+		for i := 0; i < n; i++ {
+			tb := shuffled(rng, pool)[:2+rng.Intn(3)]
+			var al []string // all
+			if len(tb) > 2 && i%2 == 1 {
+				al = shuffled(rng, tb)[:2+rng.Intn(len(tb)-2)]
+			}
+			c := cfgSpec{Kind: kind, Table: tb, Allows: [][]string{al}, Space: "concurrent", Rounds: rounds, Par: par}
+			if kind == "ws" {
+				c.Allows = [][]string{al, nil}
+			}
+			items = append(items, c)
+		}
+	}
+	conc("tcp", rec.Pick(5, 16), rec.Pick(60, 150), 8)
+	conc("ws", rec.Pick(3, 8), rec.Pick(50, 120), 8)
+	conc("unix", rec.Pick(5, 16), rec.Pick(60, 150), 8)
+	conc("udp", rec.Pick(1, 4), rec.Pick(12, 40), 6)
+	conc("stdio", rec.Pick(2, 6), rec.Pick(25, 80), 8)
+	conc("dns", 1, rec.Pick(3, 10), 3)
 	// allow-lists naming channels that are not configured
 	for _, k := range []string{"tcp", "unix", "udp", "stdio", "dns"} {
 		items = append(items,
@@ -1247,6 +1631,15 @@ func replay(rec *vcommon.Rec, raw json.RawMessage, t *testing.T) {
 	}
 	if len(rc.Cfg.Table) == 0 {
 		t.Fatal("replay descriptor without a configuration")
+	}
+	if strings.HasPrefix(rc.Via, "burst-") {
+		// a race: the same burst is repeated; a run that does not hit the window proves nothing
+		c := rc.Cfg
+		if c.Rounds < 300 {
+			c.Rounds = 300
+		}
+		runConcurrent(rec, c, 0, rc.Burst, rc.Via)
+		return
 	}
 	r, startErr, fatal := startRig(rec, rc.Cfg)
 	if fatal != nil {
